@@ -8,6 +8,7 @@ import (
 	"reflect"
 	"sort"
 	"sync"
+	"unsafe"
 )
 
 // Recv replaces a receive expression `<-ch`.
@@ -146,3 +147,8 @@ func (x *Str) Load() string { return x.s }
 
 //go:norace
 func (x *Str) Store(s string) { x.s = s }
+
+// Explicit happens-before edges for simulated resources (no-ops without -race).
+func RaceAcquire(p unsafe.Pointer)      { raceAcquire(p) }
+func RaceRelease(p unsafe.Pointer)      { raceRelease(p) }
+func RaceReleaseMerge(p unsafe.Pointer) { raceReleaseMerge(p) }
